@@ -88,3 +88,8 @@ Definition check_case (c : mcase) : bool :=
     under test when a disagreement is reported) *)
 Definition check_case_unrepaired (c : mcase) : bool :=
   let '(_, _, _, seen) := c in beq (case_model unrepaired c) seen.
+
+(** the window of remembered headers: the deliveries of a tracker-driven case and the
+    observed ChainTracker::headers length after each ([None] = the tracker refused) *)
+Definition wcase : Type := (list wop * list (option N))%type.
+Definition check_window (c : wcase) : bool := beq (win_trace winit (fst c)) (snd c).
